@@ -1,3 +1,243 @@
-import Rspirv.Model.Assemble
+import Rspirv.Props.ParserSpec
+import Rspirv.Instances
+/-!
+# C03 — the parser accepts exactly the grammar and reports the first malformed instruction
+
+`Rspirv.Model.Spec` is the grammar as a recogniser over word lists (no buffer, offsets, limits, error kinds or panics;
+readable in a few minutes). `Props/ParserSpec.lean` shows that every routine of the parser model refines it. Here:
+
+* `C03_loop` – from a state between instructions the parse loop delivers to a continuing consumer exactly the
+  instructions `Spec.insts` recognises — in stream order, each once — then `finalize` iff the whole stream was
+  recognised; otherwise it ends with an instruction-level error (never `Complete`) and never calls `finalize`;
+* `C03_accept` – a binary is accepted iff it has a complete five-word header with the magic number and its instruction
+  words are recognised to the end; `C03_trace` – the callback trace is `initialize, header, the recognised instructions
+  (, finalize)`;
+* `C03_header_*` – short or wrong headers.
+What the error value carries (kind, instruction number, byte offset) is decided by the differential with its oracle
+(truncation at every byte, substitution and word-count corruption at every instruction): `C03_partial` at that layer.
+-/
 namespace Rspirv.Props.C03
+open Rspirv Rspirv.Model Rspirv.Model.DState Rspirv.Props.C11 Rspirv.Props.C04 Rspirv.Props.ParserSpec
+
+theorem inst_shrinks (G : Tables) (τ : Tracker) (ws : List Nat) (i : Inst) (rest : List Nat)
+    (h : Spec.inst G τ ws = some (i, rest)) : rest.length < ws.length := by
+  unfold Spec.inst at h
+  cases ws with
+  | nil => cases h
+  | cons w0 t =>
+    dsimp only at h
+    split at h
+    · cases h
+    · split at h
+      · cases h
+      · split at h
+        · cases h
+        · split at h
+          · rename_i a _
+            cases h
+            simp only [List.length_drop, List.length_cons]; omega
+          · cases h
+
+theorem inst_overrun (G : Tables) (τ : Tracker) (w0 : Nat) (t : List Nat) (hover : t.length < w0 / 65536 - 1) :
+    Spec.inst G τ (w0 :: t) = none := by
+  unfold Spec.inst
+  dsimp only
+  split
+  · rfl
+  · split
+    · rfl
+    · simp [hover]
+
+variable {B : List Nat}
+
+theorem SView.inv {d : DState} {ws : List Nat} (h : SView B d ws) : C11.Inv d := by
+  have := h.fits; unfold C11.Inv; rw [h.bytes]; omega
+
+theorem SView.isSmall {d : DState} {ws : List Nat} (h : SView B d ws) : Small d := by
+  unfold Small; rw [h.bytes]; exact h.small
+
+/-- **C03 (the parse loop is the recogniser).** -/
+theorem C03_loop (G : Tables) (hT : tablesSafe G = true) : ∀ (fuel : Nat) (τ : Tracker) (k idx : Nat) (d : DState)
+    (tr : List Ev) (ws : List Nat), SView B d ws → ws.length < fuel →
+    (parseLoop G (fun _ => .continue_) fuel τ k idx d tr).trace =
+      tr.reverse ++ (Spec.insts G fuel τ ws).1.map Ev.inst ++ (if (Spec.insts G fuel τ ws).2 = [] then [Ev.fin] else []) ∧
+    ((parseLoop G (fun _ => .continue_) fuel τ k idx d tr).result = .ok () ↔ (Spec.insts G fuel τ ws).2 = []) ∧
+    ((Spec.insts G fuel τ ws).2 ≠ [] →
+      ∃ e, (parseLoop G (fun _ => .continue_) fuel τ k idx d tr).result = .err (.inst e) ∧ e ≠ .complete)
+  | 0, _, _, _, _, _, _, _, h => absurd h (Nat.not_lt_zero _)
+  | fuel + 1, τ, k, idx, d, tr, ws, hv, hf => by
+    have hc : coreKindsOk G = true := by
+      simp only [tablesSafe, Bool.and_eq_true] at hT; exact hT.1
+    obtain ⟨hnp, _, _, hok⟩ := parseInst_safe G hT τ (idx + 1) d (SView.inv hv) (SView.isSmall hv) hv.limit
+    unfold parseLoop Spec.insts
+    cases ws with
+    | nil =>
+      obtain ⟨d', hend⟩ := parseInst_end G τ (idx + 1) d hv
+      rw [hend]
+      simp [Spec.inst, consume]
+    | cons w0 t =>
+      -- what the recogniser says, and that the parser agrees
+      have hagree : (match Spec.inst G τ (w0 :: t) with
+          | some (i, rest) => ∃ d', parseInst G τ (idx + 1) d = (.ok i, d') ∧ SView B d' rest
+          | none => ∀ i d', parseInst G τ (idx + 1) d ≠ (.ok i, d')) := by
+        by_cases hfit : w0 / 65536 - 1 ≤ t.length
+        · exact parseInst_ref G hc τ (idx + 1) d w0 t hv hfit
+        · rw [inst_overrun G τ w0 t (by omega)]
+          exact parseInst_overrun G τ (idx + 1) d w0 t hv (by omega)
+      cases hs : Spec.inst G τ (w0 :: t) with
+      | none =>
+        rw [hs] at hagree
+        dsimp only at hagree ⊢
+        cases hr : parseInst G τ (idx + 1) d with
+        | mk r d1 =>
+          cases r with
+          | ok i => exact absurd hr (hagree i d1)
+          | panic site => rw [hr] at hnp; exact absurd rfl (hnp site)
+          | err e =>
+            have hne : e ≠ .complete := by
+              intro he; subst he
+              exact parseInst_complete G τ (idx + 1) d w0 t hv d1 hr
+            cases e with
+            | complete => exact absurd rfl hne
+            | wordCountZero _ _ => simp
+            | opcodeUnknown _ _ _ => simp
+            | operandExpected _ _ => simp
+            | operandExceeded _ _ => simp
+            | operandError _ => simp
+            | typeUnsupported _ _ => simp
+            | specConstantOpIntegerIncorrect _ _ => simp
+      | some p =>
+        obtain ⟨i, rest⟩ := p
+        rw [hs] at hagree
+        obtain ⟨d', hr, hv'⟩ := hagree
+        rw [hr]
+        dsimp only
+        have htr := (hok i (by rw [hr])).2.2
+        obtain ⟨τ1, ht⟩ := Option.isSome_iff_exists.1 htr
+        simp only [ht]
+        · have hlt := inst_shrinks G τ (w0 :: t) i rest hs
+          simp only [List.length_cons] at hlt hf
+          obtain ⟨h1, h2, h3⟩ := C03_loop G hT fuel τ1 (k + 1) (idx + 1) d' (Ev.inst i :: tr) rest hv' (by omega)
+          simp only [consume]
+          refine ⟨?_, h2, h3⟩
+          rw [h1]
+          simp
+
+/-- the state after a complete header, seen as a stream of instruction words -/
+theorem header_sview (bytes : List Nat) (hb : ∀ b ∈ bytes, b < 256) (hs : bytes.length < 2 ^ 63) (h20 : 20 ≤ bytes.length) :
+    ∃ ws d1, DState.words 5 (DState.new bytes) = (.ok ws, d1) ∧ SView bytes d1 (Spec.streamWords bytes) ∧
+      ws = (List.range 5).map (fun i => le32 bytes (4 * i)) := by
+  -- five successful word reads from an unlimited state at offset 0
+  have step : ∀ (o : Nat), o + 4 ≤ bytes.length →
+      word ({ bytes := bytes, offset := o, limit := none } : DState) =
+        (.ok (le32 bytes o), { bytes := bytes, offset := o + 4, limit := none }) := by
+    intro o ho
+    rcases word_spec ({ bytes := bytes, offset := o, limit := none } : DState) with ⟨h0, _⟩ | ⟨_, _, hw⟩ | ⟨_, hb', _⟩
+    · cases h0
+    · rw [hw]; rfl
+    · exact absurd ho hb'
+  refine ⟨_, { bytes := bytes, offset := 20, limit := none }, ?_, ?_, rfl⟩
+  · simp only [DState.words, DState.new, step 0 (by omega), step 4 (by omega), step 8 (by omega), step 12 (by omega),
+      step 16 (by omega)]
+    rfl
+  · have hlen : (Spec.streamWords bytes).length = (bytes.length - 20) / 4 := by simp [Spec.streamWords]
+    refine ⟨rfl, rfl, ?_, ?_, ?_, hb, hs⟩
+    · rw [hlen]; show 20 + 4 * ((bytes.length - 20) / 4) ≤ bytes.length; omega
+    · rw [hlen]; show bytes.length < 20 + 4 * ((bytes.length - 20) / 4) + 4; omega
+    · intro k hk
+      rw [hlen] at hk
+      simp [Spec.streamWords, List.getD_eq_getElem?_getD, hk]
+
+/-- **C03 (acceptance = grammar).** For every binary (bytes below 256, shorter than 2^63) and a consumer that always
+continues: the parse succeeds iff the binary has five header words with the magic number first and the recogniser
+`Spec.insts` consumes every instruction word; the consumer is handed `initialize`, the header, exactly the recognised
+instructions in stream order, and `finalize` iff the parse succeeds. -/
+theorem C03_accept (G : Tables) (hT : tablesSafe G = true) (bytes : List Nat) (hb : ∀ b ∈ bytes, b < 256)
+    (hs : bytes.length < 2 ^ 63) (h20 : 20 ≤ bytes.length) (hmagic : le32 bytes 0 = G.magic) :
+    ((parse G (fun _ => .continue_) bytes).result = .ok () ↔
+      (Spec.insts G (bytes.length + 1) [] (Spec.streamWords bytes)).2 = []) ∧
+    ∃ h, (parse G (fun _ => .continue_) bytes).trace =
+      .init :: .header h :: (Spec.insts G (bytes.length + 1) [] (Spec.streamWords bytes)).1.map Ev.inst ++
+        (if (Spec.insts G (bytes.length + 1) [] (Spec.streamWords bytes)).2 = [] then [Ev.fin] else []) := by
+  obtain ⟨ws, d1, hw, hv, hws⟩ := header_sview bytes hb hs h20
+  have hlenw : (Spec.streamWords bytes).length < bytes.length + 1 := by
+    simp only [Spec.streamWords, List.length_map, List.length_range]; omega
+  unfold parse
+  simp only [consume]
+  unfold parseHeader
+  rw [hw]
+  have hm : (ws.getD 0 0 != G.magic) = false := by
+    rw [hws]; simp [hmagic]
+  simp only [hm, Bool.false_eq_true, if_false]
+  let hd : Header := ⟨G.magic, (ws.getD 1 0 / 65536 % 256) * 65536 + (ws.getD 1 0 / 256 % 256) * 256, 0x000f0000, ws.getD 3 0, 0⟩
+  obtain ⟨h1, h2, _⟩ := C03_loop G hT (bytes.length + 1) [] 2 0 d1 [.header hd, .init] _ hv hlenw
+  refine ⟨h2, hd, ?_⟩
+  rw [h1]
+  simp
+
+/-- fewer than five header words: rejected as an incomplete header, nothing but `initialize` is called -/
+theorem C03_header_short (G : Tables) (bytes : List Nat) (h : bytes.length < 20) :
+    ∃ e, (parse G (fun _ => .continue_) bytes).result = .err (.headerIncomplete e) ∧
+      (parse G (fun _ => .continue_) bytes).trace = [.init] := by
+  have hw : ∃ e d1, DState.words 5 (DState.new bytes) = (.err e, d1) := by
+    have step : ∀ (o : Nat), o + 4 ≤ bytes.length →
+        word ({ bytes := bytes, offset := o, limit := none } : DState) =
+          (.ok (le32 bytes o), { bytes := bytes, offset := o + 4, limit := none }) := by
+      intro o ho
+      rcases word_spec ({ bytes := bytes, offset := o, limit := none } : DState) with ⟨h0, _⟩ | ⟨_, _, hw⟩ | ⟨_, hb', _⟩
+      · cases h0
+      · exact hw
+      · exact absurd ho hb'
+    have fail : ∀ (o : Nat), ¬ o + 4 ≤ bytes.length →
+        word ({ bytes := bytes, offset := o, limit := none } : DState) =
+          (.err (.streamExpected o), { bytes := bytes, offset := o, limit := none }) := by
+      intro o ho
+      rcases word_spec ({ bytes := bytes, offset := o, limit := none } : DState) with ⟨h0, _⟩ | ⟨_, hb', _⟩ | ⟨_, _, hw⟩
+      · cases h0
+      · exact absurd hb' ho
+      · exact hw
+    simp only [DState.words, DState.new]
+    by_cases c0 : 0 + 4 ≤ bytes.length
+    · rw [step 0 c0]; dsimp only
+      by_cases c1 : 4 + 4 ≤ bytes.length
+      · rw [step 4 c1]; dsimp only
+        by_cases c2 : 8 + 4 ≤ bytes.length
+        · rw [step 8 c2]; dsimp only
+          by_cases c3 : 12 + 4 ≤ bytes.length
+          · rw [step 12 c3]; dsimp only
+            rw [fail 16 (by omega)]; exact ⟨_, _, rfl⟩
+          · rw [fail 12 c3]; exact ⟨_, _, rfl⟩
+        · rw [fail 8 c2]; exact ⟨_, _, rfl⟩
+      · rw [fail 4 c1]; exact ⟨_, _, rfl⟩
+    · rw [fail 0 c0]; exact ⟨_, _, rfl⟩
+  obtain ⟨e, d1, hw⟩ := hw
+  refine ⟨e, ?_, ?_⟩ <;> simp [parse, consume, parseHeader, hw]
+
+/-- a complete header whose first word is not the magic number: rejected (byte-swapped magic is told apart) -/
+theorem C03_header_magic (G : Tables) (bytes : List Nat) (hb : ∀ b ∈ bytes, b < 256) (hs : bytes.length < 2 ^ 63)
+    (h20 : 20 ≤ bytes.length) (hmagic : le32 bytes 0 ≠ G.magic) :
+    ((parse G (fun _ => .continue_) bytes).result = .err .headerIncorrect ∨
+     (parse G (fun _ => .continue_) bytes).result = .err .endiannessUnsupported) ∧
+    (parse G (fun _ => .continue_) bytes).trace = [.init] := by
+  obtain ⟨ws, d1, hw, _, hws⟩ := header_sview bytes hb hs h20
+  have hm : (ws.getD 0 0 != G.magic) = true := by
+    rw [hws]; simpa using hmagic
+  unfold parse
+  simp only [consume]
+  unfold parseHeader
+  rw [hw]
+  simp only [hm, if_true]
+  by_cases hsw : (ws.getD 0 0 % 256 * 16777216 + ws.getD 0 0 / 256 % 256 * 65536 + ws.getD 0 0 / 65536 % 256 * 256 +
+      ws.getD 0 0 / 16777216 == G.magic) = true
+  · simp only [hsw, if_true]; simp
+  · simp only [hsw, Bool.false_eq_true, if_false]; simp
+
+open Rspirv.Instances in
+/-- the theorem at the tables regenerated from the working tree -/
+theorem C03 (bytes : List Nat) (hb : ∀ b ∈ bytes, b < 256) (hs : bytes.length < 2 ^ 63) (h20 : 20 ≤ bytes.length)
+    (hmagic : le32 bytes 0 = theTables.magic) :
+    ((parse theTables (fun _ => .continue_) bytes).result = .ok () ↔
+      (Spec.insts theTables (bytes.length + 1) [] (Spec.streamWords bytes)).2 = []) :=
+  (C03_accept theTables tables_safe bytes hb hs h20 hmagic).1
+
 end Rspirv.Props.C03
